@@ -15,7 +15,7 @@ use compio_io::{
     framed::{
         Framed,
         codec::{Decoder, Encoder, bytes::BytesCodec},
-        frame::{AnyDelimited, CharDelimited, Framer, LengthDelimited, NoopFramer},
+        frame::{AnyDelimited, CharDelimited, Framer, LengthDelimited, LineDelimited, NoopFramer},
     },
 };
 use futures_executor::block_on;
@@ -100,8 +100,40 @@ fn byte_vec(s: &[u64]) -> Result<Vec<u8>, BadCase> {
         .collect()
 }
 
+thread_local! {
+    /// the construction path of the case: 0 new(), 1 default(), 2 new().clone(), 3 default().clone()
+    static CTOR: Cell<u64> = const { Cell::new(0) };
+}
+
+/// a framer / codec value through the construction path of the case
+fn via<T: Clone>(new: impl FnOnce() -> T, default: impl FnOnce() -> T) -> T {
+    match CTOR.with(|c| c.get()) {
+        0 => new(),
+        1 => default(),
+        2 => {
+            let v = new();
+            v.clone()
+        }
+        _ => {
+            let v = default();
+            v.clone()
+        }
+    }
+}
+
+fn bytes_codec() -> BytesCodec {
+    via(BytesCodec::new, BytesCodec::default)
+}
+
+/// `kind + 10 * ctor`; AnyDelimited has no Default (ctor 0 or 2 only)
 fn dec_framer(c: &mut Case) -> Result<Fr, BadCase> {
-    match c.take()? {
+    let k = c.take()?;
+    let (kind, ctor) = (k % 10, k / 10);
+    if ctor > 3 || (kind == 2 && ctor % 2 == 1) {
+        return Err(BadCase);
+    }
+    CTOR.with(|c| c.set(ctor));
+    match kind {
         1 => {
             let lfl = c.take()? as usize;
             let be = c.take()?;
@@ -119,7 +151,7 @@ fn dec_framer(c: &mut Case) -> Result<Fr, BadCase> {
         }
         3 => {
             let id = c.take()?;
-            if id > 3 {
+            if id > 4 {
                 return Err(BadCase);
             }
             Ok(Fr::Char(id))
@@ -133,17 +165,18 @@ macro_rules! dispatch {
     ($fr:expr, $func:ident $(, $arg:expr)*) => {
         match $fr {
             Fr::Len(l, be) => $func(
-                LengthDelimited::new()
+                via(LengthDelimited::new, LengthDelimited::default)
                     .set_length_field_len(*l)
                     .set_length_field_is_big_endian(*be),
                 $($arg),*
             ),
-            Fr::Any(d) => $func(AnyDelimited::new(d), $($arg),*),
-            Fr::Char(0) => $func(CharDelimited::<'\n'>::new(), $($arg),*),
-            Fr::Char(1) => $func(CharDelimited::<'é'>::new(), $($arg),*),
-            Fr::Char(2) => $func(CharDelimited::<'ℝ'>::new(), $($arg),*),
-            Fr::Char(_) => $func(CharDelimited::<'😀'>::new(), $($arg),*),
-            Fr::Noop => $func(NoopFramer::new(), $($arg),*),
+            Fr::Any(d) => $func(via(|| AnyDelimited::new(d), || AnyDelimited::new(d)), $($arg),*),
+            Fr::Char(0) => $func(via(CharDelimited::<'\n'>::new, LineDelimited::default), $($arg),*),
+            Fr::Char(1) => $func(via(CharDelimited::<'é'>::new, CharDelimited::<'é'>::default), $($arg),*),
+            Fr::Char(2) => $func(via(CharDelimited::<'ℝ'>::new, CharDelimited::<'ℝ'>::default), $($arg),*),
+            Fr::Char(3) => $func(via(CharDelimited::<'😀'>::new, CharDelimited::<'😀'>::default), $($arg),*),
+            Fr::Char(_) => $func(via(CharDelimited::<'€'>::new, CharDelimited::<'€'>::default), $($arg),*),
+            Fr::Noop => $func(via(NoopFramer::new, NoopFramer::default), $($arg),*),
         }
     };
 }
@@ -170,7 +203,7 @@ const HANG: [u64; 2] = [2, 8];
 
 /// sink side: start_send + flush for every frame, then close
 fn encode_with<F: Framer<Vec<u8>> + Unpin>(framer: F, pipe: &Shared, frames: &[Vec<u8>]) {
-    let mut framed = Framed::symmetric::<Bytes>(BytesCodec::new(), framer).with_writer(pipe.clone());
+    let mut framed = Framed::symmetric::<Bytes>(bytes_codec(), framer).with_writer(pipe.clone());
     block_on(async {
         for f in frames {
             framed.send(Bytes::from(f.clone())).await.expect("sink error");
@@ -181,7 +214,7 @@ fn encode_with<F: Framer<Vec<u8>> + Unpin>(framer: F, pipe: &Shared, frames: &[V
 
 /// stream side: poll until the stream ends; `[nitems; items..; nreads; remaining]`
 fn decode_with<F: Framer<Vec<u8>> + Unpin>(framer: F, pipe: &Shared, out: &mut Vec<u64>) -> bool {
-    decode_generic(BytesCodec::new(), framer, pipe, out)
+    decode_generic(bytes_codec(), framer, pipe, out)
 }
 
 fn decode_probe_with<F: Framer<Vec<u8>> + Unpin>(framer: F, pipe: &Shared, out: &mut Vec<u64>) -> bool {
